@@ -3,9 +3,9 @@ use nom::{
     bytes::complete::{is_not, tag, tag_no_case, take_until},
     character::complete::{
         alpha1, alphanumeric1, char, digit1, hex_digit1, multispace0, multispace1, oct_digit1,
-        one_of,
+        one_of, satisfy,
     },
-    combinator::{all_consuming, cut, map, map_opt, map_res, opt, recognize},
+    combinator::{all_consuming, cut, map, map_opt, map_res, not, opt, peek, recognize},
     error::{context, convert_error, ContextError, FromExternalError, ParseError, VerboseError},
     multi::{many0, many1, separated_list0},
     sequence::{delimited, pair, preceded, separated_pair, terminated, tuple as nom_tuple},
@@ -201,6 +201,20 @@ where
     F: Parser<Span<'a>, O, E>,
 {
     preceded(blank, f)
+}
+
+// a keyword ends where an identifier could not go on: `iface` is a name, not `if ace`
+fn keyword<'a, E>(k: &'static str) -> impl FnMut(Span<'a>) -> IResult<Span<'a>, Span<'a>, E>
+where
+    E: ParseError<Span<'a>>
+        + ContextError<Span<'a>>
+        + FromExternalError<Span<'a>, ParseIntError>
+        + fmt::Debug,
+{
+    terminated(
+        tag(k),
+        not(peek(satisfy(|c: char| c.is_ascii_alphanumeric() || c == '_'))),
+    )
 }
 
 rule!(string -> Value, {
@@ -412,9 +426,9 @@ op_rule!(op_1, op_1_5, alt((tag("||"), tag_no_case("or"))));
 rule!(op_if(i) -> Value, {
     map(
         nom_tuple((
-            preceded(tag("if"),op_0),
-            preceded(ws(tag("then")),op_0),
-            preceded(ws(tag("else")),op_0),
+            preceded(keyword("if"),op_0),
+            preceded(ws(keyword("then")),op_0),
+            preceded(ws(keyword("else")),op_0),
         )),
         |(cond, yes, no)| {
             If::make_call(cond, yes, no).into()
@@ -432,13 +446,13 @@ rule!(op_assign -> Value, {
 rule!(op_let -> Value, {
     map(
         nom_tuple((
-            preceded(tag("let"),
+            preceded(keyword("let"),
                 terminated(
                     separated_list0(ws(char(';')), op_assign),
                     opt(ws(char(';')))
                 )
             ),
-            preceded(ws(tag("in")),op_0),
+            preceded(ws(keyword("in")),op_0),
         )),
         |(vars,expr)| Scope::make_call(vars.into(),expr).into()
     )
